@@ -20,8 +20,9 @@ func init() {
 	register(&obs.Monitor{
 		ID:    "C16",
 		Level: "exploration",
-		Rule: "one interval set per case: 1..12 feature pairs on 1..3 contigs built from nested/abutting/chained/duplicated/random intervals (1 pair in 10 pairs an interval with itself; a quarter of the cases derive feature IDs from the coordinates only); each set is piled (overlap slack 0) in >=4 insertion orders " +
-			"(all permutations for <=5 pairs in thorough), duplicates re-added in both orientations, Piles called with nil/parity/none/location-reading filters (the last also as the first call on a piler) and repeated; oracle = union-find under closed-interval overlap. " +
+		Rule: "one interval set per case: 1..12 feature pairs on 1..3 contigs built from nested/abutting/chained/duplicated/random intervals (1 pair in 10 pairs an interval with itself; a quarter of the cases derive feature IDs from the coordinates only; 1 case in 40 has 20..80 pairs with features of any length; " +
+			"1 in 10 repeats its coordinates on other or exchanged locations; some use regions of one chromosome and a region within a region as locations); each set is piled (overlap slack 0) in >=4 insertion orders " +
+			"(all permutations for <=5 pairs in thorough), duplicates re-added in both orientations, Piles called with nil/parity/none/location-reading filters (the last also as the first call on a piler) and repeated, the caller rewriting and appending to the answers in between; piles also read through their feat.Feature methods; a piler without pairs reports no piles; oracle = union-find under closed-interval overlap. " +
 			"Non-trivial = some pile holds >=2 features and there are >=2 piles; distinct = sorted interval set",
 		Batches: func(t string) int {
 			if t == "thorough" {
@@ -33,7 +34,8 @@ func init() {
 		Case:        c16Case,
 		MinDistinct: func(t string) int { return 2000 },
 		Floors: func(string) map[string]int64 {
-			return map[string]int64{"insertion_orders": 15000, "piles_checked": 30000, "duplicates_rejected": 4000, "abutting_merges": 500, "multi_pile_merges": 300, "location_reading_filter_calls": 10000}
+			return map[string]int64{"insertion_orders": 15000, "piles_checked": 30000, "duplicates_rejected": 4000, "abutting_merges": 500, "multi_pile_merges": 300, "location_reading_filter_calls": 10000,
+				"features_joining_5_or_more_piles": 200, "answers_appended_to_by_the_caller": 20000, "cases_with_locations_that_have_a_location": 500, "pairs_repeated_on_other_locations": 1500}
 		},
 		Assumptions: []string{"intervals have positive length; features are not added after Piles has been called"},
 	})
@@ -61,6 +63,12 @@ func c16Gen(r *obs.Run) []c16pair {
 	nloc := 1 + rng.Intn(3)
 	n := 1 + rng.Intn(12)
 	span := 20 + rng.Intn(100)
+	big := rng.Intn(40) == 0 // now and then many pairs on a long span, some features of any length up to the whole span
+	if big {
+		n = 20 + rng.Intn(61)
+		span = 100 + rng.Intn(901)
+		r.Count("cases_with_20_to_80_pairs_and_long_features", 1)
+	}
 	var ivs []c16iv
 	newIv := func() c16iv {
 		loc := rng.Intn(nloc)
@@ -88,6 +96,9 @@ func c16Gen(r *obs.Run) []c16pair {
 			}
 		}
 		s := rng.Intn(span)
+		if big && rng.Intn(6) == 0 {
+			return c16iv{loc, s, s + 1 + rng.Intn(span)}
+		}
 		return c16iv{loc, s, s + 1 + rng.Intn(12)}
 	}
 	far := rng.Intn(25) == 0 // some intervals end at the largest int
@@ -124,6 +135,32 @@ func c16Gen(r *obs.Run) []c16pair {
 		}
 		out = append(out, extra...)
 		r.Count("cases_with_a_copy_of_the_layout_2_32_to_the_right", 1)
+	}
+	if rng.Intn(10) == 0 {
+		// the same coordinates once more elsewhere: both images on the next location, the two locations exchanged, or
+		// one image on the next location. These are other pairs: what makes a pair is where its images lie as well.
+		var extra []c16pair
+		for _, p := range out {
+			q := p
+			switch rng.Intn(4) {
+			case 0:
+				q.A.Loc, q.B.Loc = (p.A.Loc+1)%3, (p.B.Loc+1)%3
+			case 1:
+				q.A.Loc, q.B.Loc = p.B.Loc, p.A.Loc
+			case 2:
+				if rng.Intn(2) == 0 {
+					q.A.Loc = (p.A.Loc + 1) % 3
+				} else {
+					q.B.Loc = (p.B.Loc + 1) % 3
+				}
+			}
+			if !seen[c16Key(q)] {
+				seen[c16Key(q)] = true
+				extra = append(extra, q)
+				r.Count("pairs_repeated_on_other_locations", 1)
+			}
+		}
+		out = append(out, extra...)
 	}
 	if far { // applied at the end, so that no other interval is derived from these
 		// The starts stay within a span of less than 2^63: the interval tree of the
@@ -168,6 +205,18 @@ func c16Name(coord bool, i int, side byte, iv c16iv) string {
 		return fmt.Sprintf("c%d:%d..%d", iv.Loc, iv.S, iv.E)
 	}
 	return fmt.Sprintf("p%d%c", i, side)
+}
+
+// c16Near reports whether all coordinates of the set are small (within 2^20 of zero).
+func c16Near(pairs []c16pair) bool {
+	for _, p := range pairs {
+		for _, v := range []int{p.A.S, p.A.E, p.B.S, p.B.E} {
+			if v <= -(1<<20) || v >= 1<<20 {
+				return false
+			}
+		}
+	}
+	return true
 }
 
 func c16Ref(pairs []c16pair, filter func(c16pair) bool, coord bool) (piles []c16pile, abut, multi int) {
@@ -247,6 +296,21 @@ func c16Case(r *obs.Run, i int) {
 	if rng.Intn(4) == 0 { // locations that differ although they carry one name: what counts is the location, not how it is called
 		contigs = []feat.Feature{pals.Contig("c0"), &pals.Feature{ID: "c0", From: 0, To: 1 << 20}, &pals.Feature{ID: "c0", From: 0, To: 1 << 20}}
 		r.Count("cases_with_distinct_locations_of_one_name", 1)
+	} else if c16Near(pairs) && rng.Intn(5) == 0 {
+		// locations that have a location themselves: regions of one chromosome, and a region within a region. A region
+		// is another location than the chromosome it lies on and than its sibling. (The regions lie far apart on the
+		// chromosome, so the features of different regions do not meet however their coordinates are read.)
+		chr := pals.Contig("chr")
+		regA := &pals.Feature{ID: "regionA", From: 1 << 30, To: 1<<30 + 1<<22, Loc: chr}
+		regB := &pals.Feature{ID: "regionB", From: 1 << 40, To: 1<<40 + 1<<30, Loc: chr}
+		sub := &pals.Feature{ID: "sub", From: 1 << 25, To: 1<<25 + 1<<22, Loc: regB}
+		if rng.Intn(2) == 0 {
+			contigs = []feat.Feature{chr, regA, sub}
+		} else {
+			contigs = []feat.Feature{regA, regB, sub}
+		}
+		rng.Shuffle(3, func(a, b int) { contigs[a], contigs[b] = contigs[b], contigs[a] })
+		r.Count("cases_with_locations_that_have_a_location", 1)
 	}
 	w := map[string]interface{}{"pairs": pairs}
 	fail := func(class, what string, extra interface{}) {
@@ -294,12 +358,12 @@ func c16Case(r *obs.Run, i int) {
 	}, func(p *pals.Pair) bool {
 		ok := true
 		for _, im := range []*pals.Feature{p.A, p.B} {
-			pl, isPile := im.Loc.(*pals.Pile)
-			if !isPile {
+			if _, isPile := im.Loc.(*pals.Pile); !isPile {
 				unpiled++
 				return false
 			}
-			ok = ok && half(im.From, im.To, [2]int{pl.From, pl.To})
+			// the pile is read the way other code sees it, as the feat.Feature the image is located on
+			ok = ok && half(im.Start(), im.End(), [2]int{im.Location().Start(), im.Location().End()})
 		}
 		return ok
 	}})
@@ -349,9 +413,17 @@ func c16Case(r *obs.Run, i int) {
 			orders = append(orders, o)
 		}
 	}
+	// the empty set of pairs: no piles, whatever the filter
+	if got := pals.NewPiler(0).Piles(filters[rng.Intn(len(filters))].f); len(got) != 0 {
+		fail("pile-set", fmt.Sprintf("a piler no pair was added to reports %d piles", len(got)), nil)
+		return
+	}
+	r.Count("empty_pilers_asked_for_piles", 1)
 	for _, order := range orders {
 		r.Count("insertion_orders", 1)
 		p := pals.NewPiler(0)
+		// the piles so far on each location, kept only to count how many piles one feature joins
+		sim := map[int][][2]int{}
 		if rng.Intn(3) == 0 { // progress logging switched on, at any frequency (0 = never)
 			p.Logger = log.New(ioutil.Discard, "", 0)
 			p.LogFreq = []int{0, 1, 2, 7, 1000}[rng.Intn(5)]
@@ -376,12 +448,32 @@ func c16Case(r *obs.Run, i int) {
 		}
 		var added []*pals.Pair
 		for _, idx := range order {
-			fp := mk(idx, rng.Intn(2) == 0)
+			swapped := rng.Intn(2) == 0
+			fp := mk(idx, swapped)
 			if err := p.Add(fp); err != nil {
 				fail("add-rejected", fmt.Sprintf("Add rejected a new pair %v: %v", pairs[idx], err), order)
 				return
 			}
 			added = append(added, fp)
+			for k, iv := range []c16iv{pairs[idx].A, pairs[idx].B} {
+				if swapped {
+					iv = []c16iv{pairs[idx].B, pairs[idx].A}[k]
+				}
+				keep, joined := sim[iv.Loc][:0], 0
+				m := [2]int{iv.S, iv.E}
+				for _, o := range sim[iv.Loc] {
+					if o[0] <= iv.E && iv.S <= o[1] {
+						joined++
+						m = [2]int{minInt(m[0], o[0]), maxInt(m[1], o[1])}
+					} else {
+						keep = append(keep, o)
+					}
+				}
+				sim[iv.Loc] = append(keep, m)
+				if joined >= 5 {
+					r.Count("features_joining_5_or_more_piles", 1)
+				}
+			}
 			feats[fp.A], feats[fp.B] = fp.A.ID, fp.B.ID
 			mateOf[fp.A], mateOf[fp.B] = fp.B, fp.A
 			if pairs[idx].A == pairs[idx].B {
@@ -425,6 +517,12 @@ func c16Case(r *obs.Run, i int) {
 					}
 				}
 				cp := c16pile{Loc: loc, From: pl.From, To: pl.To}
+				// the pile as other code sees it, through the feat.Feature interface
+				if asFeat := feat.Feature(pl); asFeat.Start() != pl.From || asFeat.End() != pl.To || asFeat.Location() != pl.Loc {
+					fail("pile-accessors", fmt.Sprintf("pile [%d,%d) reports Start %d, End %d or another location through its methods", pl.From, pl.To, asFeat.Start(), asFeat.End()), nil)
+					return
+				}
+				r.Count("piles_read_through_their_methods", 1)
 				for _, im := range pl.Images {
 					idn, ok := feats[im]
 					if !ok {
@@ -451,6 +549,12 @@ func c16Case(r *obs.Run, i int) {
 					}
 					if im.Start() < pl.From || im.End() > pl.To {
 						fail("hull", "feature "+idn+" extends beyond its pile", nil)
+						return
+					}
+					// whatever convention Len follows, pile and member follow the same one: a pile is as much longer
+					// than a member as its interval is (a pile of one feature is as long as the feature)
+					if pl.Len()-im.Len() != (pl.To-pl.From)-(im.To-im.From) {
+						fail("pile-accessors", fmt.Sprintf("pile [%d,%d) has Len %d, its member %s [%d,%d) has Len %d", pl.From, pl.To, pl.Len(), idn, im.From, im.To, im.Len()), nil)
 						return
 					}
 				}
@@ -500,6 +604,34 @@ func c16Case(r *obs.Run, i int) {
 					}
 				}
 				r.Count("answers_rewritten_by_the_caller", 1)
+			}
+			// ... and it may be appended to: what is appended to one pile's list does not show up in another pile of the
+			// same answer, whether or not the caller keeps the longer list
+			if len(got) > 0 && rng.Intn(2) == 0 {
+				snap := make([][]*pals.Feature, len(got))
+				for k, pl := range got {
+					snap[k] = append([]*pals.Feature(nil), pl.Images...)
+				}
+				for _, pl := range got {
+					ja, jb := &pals.Feature{ID: "junk", From: 0, To: 1, Loc: contigs[0]}, &pals.Feature{ID: "junk", From: 0, To: 1, Loc: contigs[0]}
+					jp := &pals.Pair{A: ja, B: jb}
+					ja.Pair, jb.Pair = jp, jp
+					ext := append(pl.Images, ja, jb, ja)
+					if rng.Intn(2) == 0 {
+						pl.Images = ext
+					}
+				}
+				for k, pl := range got {
+					same := len(pl.Images) >= len(snap[k])
+					for j := 0; same && j < len(snap[k]); j++ {
+						same = pl.Images[j] == snap[k][j]
+					}
+					if !same {
+						fail("images-shared", fmt.Sprintf("appending to the image lists of other piles changed the list of pile [%d,%d)", pl.From, pl.To), order)
+						return
+					}
+				}
+				r.Count("answers_appended_to_by_the_caller", 1)
 			}
 			if len(got) > 0 && rng.Intn(2) == 0 { // ... and so is the slice of piles itself
 				for k := range got {
